@@ -39,7 +39,11 @@ RULE = (
     "from the case RNG) evaluated on 40 interior points clustered towards both ends (|x| <= 1-1e-3, 0.98 for non-integer k/m; "
     "(0,3b] for b-scaled maps; (0,1/b) for Hyperbolic), as float64 array and as np.float64 scalars. InverseRTransform wraps an "
     "instance of each of the 11 other classes. A case is non-trivial when at least one derivative clause was decided on at least "
-    "one point. Admissible sets: Exp/Power rmin>0; HandyMod rmax-rmin >= 2^m-1+0.1 (else pole inside (-1,1)); Hyperbolic "
+    "one point. Input classes per instance: float64 array, np.float64 scalars, the same array object refilled in place, integer-dtype "
+    "(int64/int32) arrays of the integer values in the domain (0..n for the b-scaled maps / Identity / Hyperbolic - their documented use; "
+    "{0} and {-1,0,1} minus singular ends for the [-1,1] maps, where a loud ValueError/TypeError is counted as rejected), float32 arrays. "
+    "Family 'boundary': exactly-on-threshold and round parameter values (HandyMod rmax-rmin = 2^m, 2^m +- ulp, 2^m(1 +- 1e-13), 2^m-1+small; "
+    "R, rmin, rmax, a, b at 0, 1, 2, powers of two; k, m = 1, 2) passed as Python int, Python float, np.float64, np.int64. Admissible sets: Exp/Power rmin>0; HandyMod rmax-rmin >= 2^m-1+0.1 (else pole inside (-1,1)); Hyperbolic "
     "b*(40-1)<1; k,m>=1."
 )
 ASSUMPTIONS = [
@@ -601,8 +605,8 @@ def check_dtypes(ctx, subject, tf, xs, rs, xint, rint, documented_int, kind_note
       ``documented_int``: integer point arrays are the documented use (b-scaled maps, Identity, Hyperbolic on 0..n-1):
       an exception there is a violation.  For the other maps an integer array is an accidental input class: a LOUD
       ValueError/TypeError is counted as ``rejected`` and observed, a silently different value is still a violation.
-    * float32 arrays (mid part of the sample): |f32 - f64| <= eps32 x (1e5 x scale + 300 x measured sensitivity to the
-      argument + 300 x measured size of internally cancelling terms); points whose tolerance exceeds 5 % of the scale are undecided; a mismatch coinciding with a float32
+    * float32 arrays (mid part of the sample): |f32 - f64| <= eps32 x (1e5 x scale + 3000 x measured sensitivity to the
+      argument + 3000 x measured size of internally cancelling terms); points whose tolerance exceeds 5 % of the scale are undecided; a mismatch coinciding with a float32
       overflow/underflow flag is counted, not decided.  A dtype-dependent code path gives O(1) differences.
     """
     worst, wname = 0.0, None
@@ -662,6 +666,11 @@ def check_dtypes(ctx, subject, tf, xs, rs, xint, rint, documented_int, kind_note
             v32, e32 = _outcome(fn, a32, a32.size)
             sub = f"{subject}.{name}"
             if e64 is not None or e32 is not None:
+                if e64 is None and isinstance(e32, ZeroDivisionError):
+                    # in float32 arithmetic the argument is indistinguishable from the end where T' = 0 (r - float32(rmin) == 0):
+                    # the documented ZeroDivisionError of that end point; not an admissible float32 argument
+                    ctx.count("float32-argument-collapses-onto-singular-end:" + name)
+                    continue
                 if (e64 is None) != (e32 is None):
                     ctx.fail("float32-equals-float64", sub, "raised-for-one-dtype-only:" + type(e32 or e64).__name__, detail={"error": str(e32 or e64)[:200], "args": kind_note})
                 continue
@@ -676,7 +685,7 @@ def check_dtypes(ctx, subject, tf, xs, rs, xint, rint, documented_int, kind_note
                 # internal cancellation (1 - exp(-t), 3 d2^2 - d1 d3 == 0): size of the cancelling terms measured from the
                 # float64 rounding error of the same code against its long-double run, largest over this part of the sample
                 cabs = _noise_max(fn, a64, v64) / np.finfo(float).eps
-                tol = EPS32 * (TOL_F32 * scale + 300 * kappa + 300 * cabs)
+                tol = EPS32 * (TOL_F32 * scale + 3000 * kappa + 3000 * cabs)  # largest ratio seen with 300: 0.49 (thorough, Knowles)
                 dec = np.isfinite(tol) & (tol <= 0.05 * scale) & np.isfinite(v64)
                 dev = np.where(dec, np.abs(v32 - v64) / (tol + 1e-300), 0.0)
                 dev[dec & ((v32 == v64) | (np.isnan(v32) & np.isnan(v64)))] = 0.0
